@@ -114,7 +114,7 @@ impl vstd::std_specs::convert::FromSpecImpl<OpCode> for VCell {
 #[verifier::external_body]
 pub proof fn axiom_into_self() ensures <VCell as vstd::std_specs::convert::IntoSpec<VCell>>::obeys_into_spec(),
     forall|v: VCell| #[trigger] <VCell as vstd::std_specs::convert::IntoSpec<VCell>>::into_spec(v) == v {}
-pub assume_specification [VCell::ptr] (n: usize) -> (r: VCell) ensures r == VCell::Ptr(n);
+// VCell::ptr: verified in unit vcell (part of this group)
 pub assume_specification [Heap::maybe_put_cell] (h: &mut Heap, c: &Cell) -> (r: VCell);
 // helpers of the compile functions whose results the contracts say nothing about
 /// put_cell answers a pointer: an immediate is boxed by Heap::put (heap.rs: `if vcell.is_ptr() { vcell } else { self.put(vcell) }`)
@@ -153,9 +153,9 @@ pub assume_specification [crate::vm::environment::GlobalEnvironment::get_slot] (
 pub assume_specification<T: Into<usize>> [crate::vm::environment::GlobalEnvironment::get] (g: &mut crate::vm::environment::GlobalEnvironment, sym: T) -> (r: Option<VCell>)
     ensures genv_slots(*final(g)) == genv_slots(*old(g));
 pub assume_specification<T: Into<usize>> [VCell::env_slot] (slot: T) -> (r: VCell);
-pub assume_specification [VCell::void] () -> (r: VCell);
+// VCell::void: verified in unit vcell (part of this group)
 pub assume_specification<T: Into<Vec<VCell>>> [VCell::vector] (x: T) -> (r: VCell);
-pub assume_specification [VCell::as_ptr] (c: &VCell) -> (r: Result<usize, Error>) ensures (*c is Ptr) ==> r is Ok;
+// VCell::as_ptr: verified in unit vcell (part of this group)
 pub assume_specification [crate::vm::transform::Transform::try_new] (expr: &Cell) -> (r: Result<crate::vm::transform::Transform, Error>);
 pub assume_specification [crate::vm::transform::Transform::keyword] (t: &crate::vm::transform::Transform) -> (r: &Cell);
 
